@@ -1,5 +1,5 @@
 CONSTANTS
-  Enabled = {"R1", "R2", "R2x", "S1", "S1x", "S2", "M1", "S3", "S4"}
+  Enabled = {"R1", "R2", "R2x", "S1", "S1x", "S2", "M1", "S3", "S4", "R3", "W2", "C1", "Z3"}
   MaxBlocks = 8
   MaxBulk = 1
   MaxSteps = 20
